@@ -230,6 +230,9 @@ MUTANTS = [
     ("catch-last-no-rethrow", "C04", "R-CATCH-LAST", "compile_try_expression", "crates/bytecode/src/compiler.rs",
      "            if rethrow_if_unmatched {\n                // None of the catch blocks accepted the caught value, so throw it again\n                self.push_span(ctx.node_with_span(catch_block.arg), ctx.ast);\n                self.push_op(Throw, &[catch_register]);\n                self.pop_span();\n            }\n",
      ""),
+    ("arith-range-index-unchecked-add", "C06", "R-ARITH", "run_index", "crates/runtime/src/vm.rs",
+     "                match start.checked_add(index as i64) {\n                    Some(result) => Number(result.into()),\n                    None => return runtime_error!(\"index out of bounds - index: {n}\"),\n                }",
+     "                Number((start + index as i64).into())"),
 ]
 
 
